@@ -38,6 +38,12 @@ def build_tree(rng, tier):
         def __init__(self):
             super().__init__()
 
+    class GatedLinear(nn.Linear):      # a supported type used as a container: not a leaf, hence not a layer itself
+        pass
+
+    class ConvNorm(nn.Conv2d):
+        pass
+
     class ColumnParallelLinear(nn.Linear):
         pass
 
@@ -83,7 +89,7 @@ def build_tree(rng, tier):
     names = ['fc', 'fc1', 'fc2', 'conv', 'block', 'head', 'linear_in', 'l', 'Lin', 'a', 'b', 'net', 'L2', 'module', 'module', 'fc']
 
     def container(depth, neox):
-        kind = rng.choice(['seq', 'list', 'dict', 'block'])
+        kind = rng.choice(['seq', 'list', 'dict', 'block'] + ([] if neox else ['gated']))
         n = rng.randint(0 if depth > 0 else 1, 4)
         kids = [(container(depth + 1, neox) if depth < 3 and rng.random() < 0.3 else leaf(neox)) for _ in range(n)]
         if kind == 'seq':
@@ -95,7 +101,7 @@ def build_tree(rng, tier):
             for k in kids:
                 d[rng.choice(names) + str(rng.randint(0, 3))] = k
             return d
-        b = Block()
+        b = Block() if kind != 'gated' else rng.choice([lambda: GatedLinear(2, 2), lambda: ConvNorm(1, 1, 1)])()
         for k in kids:
             b.add_module(rng.choice(names) + rng.choice(['', '', '1', '2', '_x']), k)
         if rng.random() < 0.3:
